@@ -41,7 +41,10 @@ func (p *PidLoop) Loop(target float64, measured float64) float64 {
 
 		proportional := err
 		p.integral = p.integral + err*dt
-		derivative := (err - p.error) / dt
+		derivative := 0.0
+		if dt > 0 {
+			derivative = (err - p.error) / dt
+		}
 		output = p.p*proportional + p.i*p.integral + p.d*derivative
 	}
 
